@@ -86,11 +86,12 @@ type sched struct {
 }
 
 type mutexState struct {
-	locked  bool
-	readers int
-	rvc     []int // released by readers (RUnlock)
-	vc      []int
-	owner   *G
+	waitingWriters int
+	locked         bool
+	readers        int
+	rvc            []int // released by readers (RUnlock)
+	vc             []int
+	owner          *G
 }
 
 type wgState struct {
